@@ -364,20 +364,15 @@ def run_check(pid, tier, seed, replay=None):
                     if not assumptions_seen:
                         problems.append("property theorem file %s prints no assumptions (Print Assumptions missing?)" % pf)
                     open(os.path.join(rundir, "assumptions.log"), "w").write(out2)
-        # 2b. thorough tier: independent re-check of the compiled property file with coqchk
+        # 2b. thorough tier: independent re-check of the compiled property file with coqchk. Only a snapshot of the
+        # compiled files is taken under the build lock; coqchk itself (minutes) runs on the snapshot after the lock
+        # is released, beside the harness and the case evaluation.
+        coqchk_job = None
         if tier == "thorough" and rc == 0 and cfg.get("props_file") and os.environ.get("VERIF_COQCHK", "1") != "0":
-            mod = "V." + cfg["props_file"][:-2].replace("/", ".")
-            rc3, out3, dt3 = sh(["coqchk", "-silent", "-o", "-R", COQ, "V", mod], cwd=COQ,
-                                timeout=int(tcfg.get("coqchk_timeout", 2400)))
-            checker_cmds.append("coqchk -silent -o -R coq V %s" % mod)
-            open(os.path.join(rundir, "coqchk.log"), "w").write(out3)
-            if rc3 == 124:
-                notes.append("coqchk on %s did not finish within its time limit (%.0fs); kernel result stands" % (mod, dt3))
-            elif rc3 != 0:
-                problems.append("coqchk rejects %s:\n%s" % (mod, out3[-1500:]))
-            else:
-                m3 = re.search(r"CONTEXT SUMMARY(.*)", out3, re.S)
-                notes.append("coqchk %s ok in %.0fs: %s" % (mod, dt3, re.sub(r"\s+", " ", (m3.group(1) if m3 else out3)[-900:]).strip()))
+            snap = os.path.join(rundir, "coqchk-snap")
+            shutil.rmtree(snap, ignore_errors=True)
+            sh(["rsync", "-a", "--include=*/", "--include=*.vo", "--exclude=*", COQ + "/", snap + "/"], cwd=ROOT, timeout=600)
+            coqchk_job = ("V." + cfg["props_file"][:-2].replace("/", "."), snap)
         # 3. harness build (from /repo's working tree)
         hbin = None
         if cfg.get("harness"):
@@ -390,6 +385,25 @@ def run_check(pid, tier, seed, replay=None):
                                 "(correspondence cannot be established):\n" + o[-2500:])
                 hbin = None
 
+    coqchk_thread = None
+    if coqchk_job:
+        import threading
+        def do_coqchk():
+            mod, snap = coqchk_job
+            rc3, out3, dt3 = sh(["coqchk", "-silent", "-o", "-R", snap, "V", mod], cwd=snap,
+                                timeout=int(tcfg.get("coqchk_timeout", 2400)))
+            checker_cmds.append("coqchk -silent -o -R coq V %s  (on a snapshot of the compiled files)" % mod)
+            open(os.path.join(rundir, "coqchk.log"), "w").write(out3)
+            if rc3 == 124:
+                notes.append("coqchk on %s did not finish within its time limit (%.0fs); kernel result stands" % (mod, dt3))
+            elif rc3 != 0:
+                problems.append("coqchk rejects %s:\n%s" % (mod, out3[-1500:]))
+            else:
+                m3 = re.search(r"CONTEXT SUMMARY(.*)", out3, re.S)
+                notes.append("coqchk %s ok in %.0fs: %s" % (mod, dt3, re.sub(r"\s+", " ", (m3.group(1) if m3 else out3)[-900:]).strip()))
+            shutil.rmtree(snap, ignore_errors=True)
+        coqchk_thread = threading.Thread(target=do_coqchk)
+        coqchk_thread.start()
     # 4. run the harness (outside the build lock)
     if hbin:
         cmd = [hbin, "-seed", str(seed), "-n", str(n), "-tier", tier, "-out", rundir]
@@ -425,6 +439,8 @@ def run_check(pid, tier, seed, replay=None):
         for cf, body in mismatch_cases:
             problems.append("correspondence broken: model and implementation disagree on cases %s of %s" % (body[:600], cf))
 
+    if coqchk_thread:
+        coqchk_thread.join()
     # 6. verdict
     known = load_known()
     violations = harness_res.get("violations", []) if harness_res else []
